@@ -8,6 +8,8 @@ import (
 	"encoding/binary"
 	"encoding/json"
 	"fmt"
+	"math"
+	"sort"
 	v1 "github.com/celestiaorg/go-square/v2/proto/blob/v1"
 	"strconv"
 	"strings"
@@ -617,10 +619,54 @@ func genC19(c *Ctx) {
 		case 6:
 			inner, n = []byte{}, 0
 		}
+		// shapes of the index list (the round trip is over ALL lists, not only the ones a built square records):
+		// repeated values (adjacent, everywhere, at a distance), sorted both ways, all zero, maximal, long
+		shape := -1
+		if i > 6 && i%2 == 0 {
+			shape = (i / 2) % 8
+			if n < 2 {
+				n = 2 + r.Intn(4)
+			}
+			if shape == 7 {
+				n = 64 + r.Intn(80)
+			}
+		}
 		idx := make([]uint32, n)
-		parts := make([]string, n)
 		for j := range idx {
 			idx[j] = uint32(r.U64() >> uint(32+r.Intn(32)))
+		}
+		switch shape {
+		case 0: // all equal (what the builder's worst-case wrapper looks like)
+			for j := range idx {
+				idx[j] = idx[0]
+			}
+		case 1: // one adjacent repeat
+			j := 1 + r.Intn(n-1)
+			idx[j] = idx[j-1]
+		case 2: // a repeat at a distance
+			idx[n-1] = idx[0]
+		case 3:
+			sort.Slice(idx, func(a, b int) bool { return idx[a] < idx[b] })
+		case 4:
+			sort.Slice(idx, func(a, b int) bool { return idx[a] > idx[b] })
+		case 5:
+			for j := range idx {
+				idx[j] = 0
+			}
+		case 6:
+			for j := range idx {
+				idx[j] = math.MaxUint32 - uint32(j%2)
+			}
+		case 7: // long list of multi-byte values: packed payload >= 128 bytes
+			for j := range idx {
+				idx[j] = 128 + uint32(r.Intn(20000))
+			}
+		}
+		if shape >= 0 {
+			c.count(fmt.Sprintf("index_list_shape_%d", shape))
+		}
+		parts := make([]string, n)
+		for j := range idx {
 			parts[j] = strconv.FormatUint(uint64(idx[j]), 10)
 		}
 		c.add("iwmarshal", hx(inner), strings.Join(parts, ","))
